@@ -13,7 +13,8 @@ c.args(self=SESSION, message_size='nat')
 c.loop(0, ["message + self._connection.remaining == old(self._connection.remaining)",
            "bytes_received == len(message)", "bytes_received <= message_size"],
        modifies=["self._connection.remaining"], decreases="message_size - bytes_received")
-c.raises(('exceptions.ConnectionClosed', 'ValueError'))
+c.raises('exceptions.ConnectionClosed', emits=[('recv', 'closed')])
+c.raises('ValueError', emits=[('recv', 'none')])
 c.ensures("result + self._connection.remaining == old(self._connection.remaining)", name="prefix-of-stream")
 c.ensures("len(result) == message_size", name="exact-length")
 c.modifies("self._connection.remaining")
@@ -30,7 +31,14 @@ c.native_check(lambda pre, post, raised: True if not isinstance(raised, ValueErr
 
 c = contract(S + "_receive_request").props('C12')
 c.args(self=SESSION)
-c.raises(('exceptions.ConnectionClosed', 'ValueError'))
+c.raises('exceptions.ConnectionClosed', emits=[('recv', 'closed')])
+c.raises('ValueError', emits=[('recv', 'none')])
+c.trace("value-error-only-when-the-stream-stalls",
+        lambda ev, outcome, exc: True if not (outcome == 'raise' and exc.cls is ValueError)
+        or ('recv', 'none') in ev else "ValueError although every recv delivered data")
+c.trace("closed-only-when-the-peer-closed",
+        lambda ev, outcome, exc: True if not (outcome == 'raise' and exc.cls.__name__ == 'ConnectionClosed')
+        or ('recv', 'closed') in ev else "ConnectionClosed although the peer did not close")
 c.ensures("result.buffer + self._connection.remaining == old(self._connection.remaining)", name="frame-is-prefix")
 c.ensures("len(result.buffer) == 8 + be_int(result.buffer[4:8])", name="frame-length-from-header")
 c.modifies("self._connection.remaining")
